@@ -2,8 +2,8 @@ PROPERTIES = ['C03', 'C02']
 BOUNDS = {
     'quick': 'optional<TA>, variant<TA,TB,int>, expected<TA,TB> with instrumented alternatives (copy+move; move-only and copy-only for the subset that compiles): one operation from every state, '
              'every (from, to) index pair of assignment / swap / emplace / converting construction and assignment (index symbolic, case-split inside one query); payloads and object bytes symbolic; '
-             'histories of 2 symbolic operations on two objects from every state pair (copy+move)',
-    'thorough': 'the same single steps plus histories of 3 symbolic operations (all three flavours)',
+             'histories of 2 symbolic operations on two objects from the default-constructed pair (copy+move; 6 op codes variant, 7 optional)',
+    'thorough': 'the same single steps plus histories from every state pair: 2 operations on two variants, 3 operations on two optionals (all three flavours)',
 }
 ASSUMPTIONS = [
     'C03: operator*, error(), unchecked_get are called inside their precondition (has_value / index match); contract checks compiled out',
@@ -40,10 +40,15 @@ def queries(tier, prop='C03'):
             for e in al + ([] if fl == 1 else cp):
                 add(pre + e, fl)
     if not ub:
-        if tier == 'quick':
-            add('v_hist', 0, budget=300, KSTEPS=2); add('o_hist', 0, budget=300, KSTEPS=2)
+        if tier == 'quick':   # from the default-constructed pair of objects
+            for f in range(6): add('v_hist', 0, budget=300, KSTEPS=2, HSA=0, HSB=0, FIRST=f)   # one query per first operation
+            for f in range(7): add('o_hist', 0, budget=300, KSTEPS=2, HSA=0, HSB=0, FIRST=f)
         else:
             for fl in (0, 1, 2):
-                add('v_hist', fl, budget=2400, KSTEPS=3); add('o_hist', fl, budget=2400, KSTEPS=3)
-    for q_ in out: q_['lazy_trace'] = True   # verdict first, counterexample trace only when an obligation fails (engine/runner.py)
+                for a in (0, 1, 2):
+                    for b in (0, 1, 2): add('v_hist', fl, budget=2400, KSTEPS=2, HSA=a, HSB=b)
+                for a in (0, 1):
+                    for b in (0, 1): add('o_hist', fl, budget=2400, KSTEPS=3, HSA=a, HSB=b)
+    for q_ in out:
+        q_['lazy_trace'] = True   # verdict first, counterexample trace only when an obligation fails (engine/runner.py)
     return out
